@@ -16,14 +16,15 @@ def regen_recover_sites(ctx):
     """extract/recoversites -> lean/GoluaVerif/Generated/RecoverSites.lean (before the proofs are re-checked):
     Props/C05|C06 `recover_sites_classified` is the obligation over it"""
     tool = os.path.join(common.BIN, "recoversites")
-    rc, o = common.sh(["go", "build", "-o", tool, "./recoversites"], cwd=os.path.join(common.ROOT, "extract"),
-                      env=common.GOENV, timeout=600)
-    if rc != 0:
-        raise common.BuildError("building recoversites failed:\n" + o)
     out = os.path.join(common.LEAN, "GoluaVerif", "Generated", "RecoverSites.lean")
-    rc, o = common.sh([tool, "-repo", common.REPO, "-out", out], timeout=300)
-    if rc != 0:
-        raise common.BuildError("recoversites failed:\n" + o)
+    with common.Lock("regen"):
+        rc, o = common.sh(["go", "build", "-o", tool, "./recoversites"], cwd=os.path.join(common.ROOT, "extract"),
+                          env=common.GOENV, timeout=600)
+        if rc != 0:
+            raise common.BuildError("building recoversites failed:\n" + o)
+        rc, o = common.sh([tool, "-repo", common.REPO, "-out", out], timeout=300)
+        if rc != 0:
+            raise common.BuildError("recoversites failed:\n" + o)
     n = open(out).read().count("⟨\"")
     ctx.extra["recover_sites"] = n
     return n
